@@ -41,7 +41,7 @@ class SMMapSetMeta:
         self: "SMMapSet", lines: List[str]
     ) -> Tuple[List[BpmChangeSnap], SMStopList]:
         """Reads the metadata strings"""
-        bcs_s, stops = None, None
+        bcs_s, stops = None, SMStopList([])
         for line in lines:
             if line == "":
                 continue
